@@ -290,8 +290,12 @@ func hC10Resp() {
 		cfg.svcProtos = []Protocol{ProtocolConnect}
 	}
 	reencode := verifChoose("reencode", 2) == 1
+	bulky := 1
 	if reencode {
 		cfg.svcCodecs = []string{CodecJSON}
+		if verifChoose("bulkyJSON", 2) == 1 {
+			cfg.jsonRepeat, bulky = 3, 3 // the backend's JSON form is three times larger than the client's proto form
+		}
 	}
 	cfg.svcComp = true
 	compressed := verifChoose("compressed", 2) == 1
@@ -315,8 +319,12 @@ func hC10Resp() {
 	// client-side meaning of the compressed payload is the expanded byte string
 	declareLen := !targetEnveloped && verifChoose("declareLen", 2) == 1
 	p.backend.script = &respScript{msgs: []wireMsg{{abstract: raw, compressed: compressed}}, comp: compressed, declareLen: declareLen}
-	p.serve([]wireMsg{{abstract: []byte{'q'}}})
+	if verifChoose("byteWiseWrites", 2) == 1 {
+		p.backend.script.writeMode = wmBytes // the handler writes its response one byte per Write
+	}
+	p.serve([]wireMsg{{abstract: []byte{}}}) // an empty request message: every form of it fits in L
 	out := refParseClientResponse(cfg, p.sink, p.backend.rec.calls > 0)
+	verifAssert(p.backend.rec.calls == 1, "C10: the (empty) request reaches the backend")
 	verifObsInt("client-code", int64(out.code))
 	verifObsInt("decompressed-bytes", int64(produced))
 	verifObsStr("oracle-why", out.why)
@@ -347,7 +355,7 @@ func hC10Resp() {
 		if codec == CodecJSON {
 			decoded = len(meaning) // abstract size; JSON form is +2 on the backend side
 		}
-		reps = append(reps, decoded, decoded+2)
+		reps = append(reps, decoded, bulky*decoded+2)
 	}
 	biggest := maxInt(reps...)
 	mustBuffer := reencode || !clientEnv || (!targetEnveloped && clientEnv && !declareLen)
